@@ -559,6 +559,11 @@ def d2(ctx, prog, regs):
             stores = [s for s in body if isinstance(s, ast.Assign) and isinstance(s.targets[0], ast.Subscript) and norm(s.targets[0].value) == kwp]
             if len(stores) == 1 and norm(stores[0].value).startswith(f'{kwp}[') and norm(stores[0]) != want_store:
                 ctx.fail('C07-D2', f'{f.key}::mapping', f'`{norm(stores[0])}`: the metadata tagged {tag_attr} is not what reaches the parameter named {name_attr}', f.where(stores[0]))
+            elif any(isinstance(s, ast.Expr) and isinstance(s.value, ast.Call) and norm(s.value.func) == f'{kwp}.setdefault' and len(s.value.args) == 2
+                     and norm(s.value.args[0]) == f'self.{name_attr}' for s in body) and not stores:
+                sd = [s for s in body if isinstance(s, ast.Expr) and isinstance(s.value, ast.Call) and norm(s.value.func) == f'{kwp}.setdefault'][0]
+                ctx.fail('C07-D2', f'{f.key}::mapping', f'`{norm(sd)[:80]}`: setdefault keeps a metadata field that is itself called like the parameter ({name_attr}), so the value tagged {tag_attr} '
+                         'does not reach the function whenever the metadata hold both', f.where(sd))
             else:
                 # functional form: super().meth(**{..., self.name: kwargs[self.tag], ...}) - in a dict display the LAST entry wins
                 sup = [c for c in ast.walk(f.node) if isinstance(c, ast.Call) and norm(c.func) == f'super().{meth}' and not c.args and len(c.keywords) == 1 and c.keywords[0].arg is None
